@@ -1063,6 +1063,79 @@ static void run_manywaiters(void)
     cmb_condition_terminate(&mw_cond);
 }
 
+/* ---- evchurn: a small, steady population of pending events over thousands of executions (handles far apart in age
+ * share slots of the queue's hash map; the old ones leave while the young ones stay): every pending handle is looked
+ * at by every query and touched by reschedule / reprioritise / cancel in turn. Valid use throughout. */
+#define CHURN_MAX 12
+static uint64_t churn_h[CHURN_MAX];
+static int churn_k, churn_left, churn_touch;
+static uint64_t churn_runs;
+
+static void churn_action(void *subj, void *obj)
+{
+    (void)obj;
+    const int slot = (int)(intptr_t)subj;
+    churn_runs++;
+    churn_h[slot] = 0;
+    if (churn_left > 0) {
+        churn_left--;
+        /* uneven lifetimes: some events stay for a long time while many others come and go */
+        const double dt = (double)(1 + (churn_runs * 7 + (uint64_t)slot * 3) % ((slot == 0) ? 97 : 5));
+        churn_h[slot] = cmb_event_schedule(churn_action, subj, NULL, cmb_time() + dt, (int64_t)(churn_runs % 3));
+    }
+    for (int i = 0; i < churn_k; i++) {
+        const uint64_t h = churn_h[i];
+        if (h == 0) {
+            continue;
+        }
+        if (!cmb_event_is_scheduled(h)) {
+            FAIL("pending-event-not-found", "K=%d: handle %" PRIu64 " is pending but is-scheduled says no (after %" PRIu64 " executions)",
+                 churn_k, h, churn_runs);
+            /* and go on: the time and priority queries of a pending event are valid calls whatever that said */
+        }
+        const double t = cmb_event_time(h);
+        const int64_t pr = cmb_event_priority(h);
+        if (t < cmb_time()) {
+            FAIL("pending-event-in-the-past", "handle %" PRIu64 " has time %g at t=%g", h, t, cmb_time());
+        }
+        if (churn_touch == 1 && (churn_runs + (uint64_t)i) % 4 == 0) {
+            cmb_event_reschedule(h, t + 1.0);
+        }
+        else if (churn_touch == 2 && (churn_runs + (uint64_t)i) % 4 == 0) {
+            cmb_event_reprioritize(h, pr + 1);
+        }
+        else if (churn_touch == 3 && i != slot && (churn_runs + (uint64_t)i) % 16 == 0 && churn_left > 0) {
+            if (!cmb_event_cancel(h)) {
+                FAIL("pending-event-not-cancelled", "cancel of pending handle %" PRIu64 " returned false", h);
+            }
+            churn_h[i] = cmb_event_schedule(churn_action, (void *)(intptr_t)i, NULL, cmb_time() + 2.0, 0);
+        }
+    }
+}
+
+static void run_evchurn(void)
+{
+    churn_k = 2 + vx_choose_free(CHURN_MAX - 1, "population");
+    churn_touch = vx_choose_free(4, "touch");
+    churn_left = 3000;
+    churn_runs = 0;
+    memset(churn_h, 0, sizeof churn_h);
+    for (int i = 0; i < churn_k; i++) {
+        churn_h[i] = cmb_event_schedule(churn_action, (void *)(intptr_t)i, NULL, (double)(i + 1), 0);
+    }
+    uint64_t n = 0;
+    while (cmb_event_execute_next()) {
+        n++;
+    }
+    vx_transitions(n);
+    if (churn_runs != 3000 + (uint64_t)churn_k) {
+        FAIL("executions", "K=%d touch=%d: %" PRIu64 " events ran, %d were scheduled and not cancelled", churn_k, churn_touch, churn_runs,
+             3000 + churn_k);
+    }
+    vx_outcome((uint64_t)churn_k * 4 + (uint64_t)churn_touch);
+    vx_state((uint64_t)churn_k * 4 + (uint64_t)churn_touch);
+}
+
 static void run_one(void)
 {
     memset(procs, 0, sizeof procs);
@@ -1080,6 +1153,7 @@ static void run_one(void)
     else if (!strcmp(mode, "guardorder")) run_guardorder();
     else if (!strcmp(mode, "pqorder")) run_pqorder();
     else if (!strcmp(mode, "manywaiters")) run_manywaiters();
+    else if (!strcmp(mode, "evchurn")) run_evchurn();
     else run_procwait();
     for (int i = 0; i < NP; i++) {
         if (procs[i].core.stack != NULL) {
